@@ -20,7 +20,10 @@ RULE = ('Rule-based state machine over one MidiFile and a plain model (type, tic
         'fake clock, save(). Oracle: every observation equals the same observation on a freshly built '
         'MidiFile(type, ticks_per_beat, tracks=copy of the model) (same result or same exception type); the model is '
         'cross-checked against mid.tracks after every step (so an observation that edits the file is seen too). '
-        'Non-trivial = observe -> edit other than add_track -> observe; distinct by op list.')
+        'Non-trivial = observe -> edit other than add_track -> observe; distinct by op list.'
+        ' Later additions: every observation also compared with an independent reference (reference merge, exact'
+        ' tempo map, byte-exact reference encoding); charset edits; poking results; splitting / joining tracks; 12'
+        ' 000-message files (70 000 thorough) with in-place edits between observations.')
 ASSUMPTIONS = ['play() runs with time.sleep and now replaced by a fake clock']
 
 
